@@ -200,8 +200,9 @@ def gen_scenario(rng, quick):
             "nan_pressure", "oos_all_junctions"]
     if profile in ("water", "gas"):
         muts += ["two_pc", "two_pc"]
+    muts += ["oos_twin_supply", "oos_twin_supply"]
     if profile == "heat":
-        muts += ["second_pump", "second_pump", "nan_tflow"]
+        muts += ["second_pump", "second_pump", "nan_tflow", "oos_twin_supply"]
     steps = []
     for _ in range(rng.randint(2, 5)):
         steps.append({"mut": rng.choice(muts), "mode": rng.choice(modes),
@@ -230,6 +231,7 @@ def gen_p_only_island(rng):
             "pick": rng.getrandbits(30)}
 
 
+BENIGN = ("oos_twin_supply",)       # mutations that add only out-of-service elements
 DRIVER_FUNCS = ("pipeflow.py:newton_raphson", "pipeflow.py:finalize_iteration", "pipeflow.py:set_damping_factor")
 
 
@@ -297,6 +299,22 @@ def apply_mutation(net, mut, pick):
                 pp.create_pressure_control(net, int(r.from_junction), int(r.to_junction), int(r.to_junction), p)
         except Exception:  # noqa: BLE001 - controllability pre-check of create_pressure_control refused / failed
             pass
+    elif mut == "oos_twin_supply":
+        # an out-of-service twin of every supply element, created right next to the in-service one
+        for tbl in ("circ_pump_pressure", "circ_pump_mass", "ext_grid"):
+            if tbl in net and len(net[tbl]):
+                r = net[tbl].iloc[pick % len(net[tbl])]
+                n0 = len(net[tbl])
+                drop_added(tbl, n0)
+                if tbl == "circ_pump_pressure":
+                    pp.create_circ_pump_const_pressure(net, int(r.return_junction), int(r.flow_junction), p_flow_bar=float(r.p_flow_bar),
+                                                       plift_bar=float(r.plift_bar), t_flow_k=float(r.t_flow_k), in_service=False)
+                elif tbl == "circ_pump_mass":
+                    pp.create_circ_pump_const_mass_flow(net, int(r.return_junction), int(r.flow_junction), p_flow_bar=float(r.p_flow_bar),
+                                                        mdot_flow_kg_per_s=float(r.mdot_flow_kg_per_s), t_flow_k=float(r.t_flow_k),
+                                                        in_service=False)
+                else:
+                    pp.create_ext_grid(net, int(r.junction), p_bar=float(r.p_bar), t_k=float(r.t_k), in_service=False)
     elif mut == "second_pump":
         tbl = "circ_pump_pressure" if len(net.circ_pump_pressure) else "circ_pump_mass"
         if len(net[tbl]):
@@ -331,7 +349,7 @@ def classify(exc, frames, runs):
         flags["heat_unsupplied"] = True
     elif "use_given_hydraulic_results" in frames or (frames and frames[-1] == "pipeflow"):
         pass                                            # hyd_flag test / bad mode: decided by the model
-    elif in_stage:
+    elif in_stage and "newton_raphson" in frames:
         # the exception escapes from inside a stage (solve function, reduce_pit ...): model transition ri_escape
         flags["escape"] = ({"hydraulics": "hydraulics", "heat_transfer": "heat", "bidirectional": "bidirectional"}[in_stage[-1]],
                            "EscNotConverged" if nc else "EscOther")
@@ -435,6 +453,16 @@ def run_scenarios(ctx, n_scen):
                                  "mode": mode, "method": st["method"]},
                            "the Newton driver itself raised %s (%s: %s) in mode %s with %s damping instead of ending in a "
                            "result or in PipeflowNotConverged" % (cls, where, str(exc)[:120], mode, st["method"]), replay)
+            if "_internal_data" in net:
+                report(ctx, {"clause": "internal_data_dropped", "outcome": cls, "raised_in": where},
+                       "after a pipeflow call without reuse_internal_data (%s, outcome %s %s) the net still carries "
+                       "_internal_data" % (mode, cls, where), replay)
+            if st["mut"] in BENIGN and mode in ("hydraulics", "sequential", "bidirectional") and \
+                    cls not in ("ok", "PipeflowNotConverged"):
+                report(ctx, {"clause": "fails_only_with_PipeflowNotConverged", "exception": cls, "raised_in": where,
+                             "mutation": st["mut"]},
+                       "an out-of-service supply element next to an in-service one makes pipeflow raise %s (%s: %s)"
+                       % (cls, where, str(exc)[:120]), replay)
             # ---- model call ----
             tabs = "AllNaN" if allnan else "Written"
             if flags["options_raise"]:
@@ -479,8 +507,8 @@ def run_scenarios(ctx, n_scen):
                       cbool(flags["conn_raise"]), cbool(flags["heat_unsupplied"]), cbool(flags["extract_raise"]),
                       cq(D.alpha_q(alpha0)), hy[0], clist(hy[1:]), ht[0], clist(ht[1:]), bi[-1]))
             out = "Returned" if cls == "ok" else "NotConverged" if cls == "PipeflowNotConverged" else "OtherException"
-            calls.append("{| pc_mode := %s; pc_env := %s; pc_obs_outcome := %s; pc_obs_conv := %s; pc_obs_tables := %s |}"
-                         % (MODES.get(mode, "MBad"), env, out, cbool(conv), tabs))
+            calls.append("{| pc_mode := %s; pc_env := %s; pc_obs_outcome := %s; pc_obs_conv := %s; pc_obs_tables := %s; "
+                         "pc_obs_idata := %s |}" % (MODES.get(mode, "MBad"), env, out, cbool(conv), tabs, cbool("_internal_data" in net)))
         if calls:
             seqs.append("(%s, %s)" % (start, clist(calls)))
             meta.append({"spec": sc["spec"], "steps": sc["steps"], "pick": sc["pick"], "log": log})
